@@ -192,6 +192,9 @@ func (r *Report) Finish(verifDir string, known *KnownFile) int {
 			"violations": viol, "undecided": undec, "rules": r.RuleTexts,
 		}, "", " ")
 		_ = os.WriteFile(replay, vb, 0o644)
+	} else if r.Property != "_debug" {
+		// a passing run leaves no stale violation report behind
+		_ = os.Remove(filepath.Join(verifDir, "evidence", "violations", r.Property+".json"))
 	}
 
 	// samples: a spread of real obligations
@@ -250,6 +253,9 @@ func (r *Report) Finish(verifDir string, known *KnownFile) int {
 	}
 	eb, _ := json.MarshalIndent(ev, "", " ")
 	_ = os.MkdirAll(filepath.Join(verifDir, "evidence"), 0o755)
+	if r.Property == "_debug" {
+		return exit
+	}
 	if err := os.WriteFile(filepath.Join(verifDir, "evidence", r.Property+".json"), eb, 0o644); err != nil {
 		fmt.Println("cannot write evidence:", err)
 		exit = 1
